@@ -132,7 +132,7 @@ func runC02(c *Ctx) {
 		r.Check(rcond["VendorID"] == "V", "R3", fname(ar)+":vendor-iff-V", c.fpos(ar), "the reader takes the vendor id exactly under Flags&Vbit", "the reader takes the vendor id on edge '"+rcond["VendorID"]+"' instead of exactly under the V flag")
 		vEdge := ""
 		if ft, ok := wfacts[8]; ok {
-			vEdge = vbitEdge(ft.At)
+			vEdge = c.vbitEdge(ft.At)
 		}
 		r.Check(vEdge == "V", "R3", fname(aw)+":vendor-iff-V", c.fpos(aw), "the writer emits the vendor id exactly under Flags&Vbit", "the writer emits the vendor id on edge '"+vEdge+"' instead of exactly under the V flag")
 		c.c02HeaderLen()
@@ -235,7 +235,7 @@ func (c *Ctx) c02HeaderLen() {
 			return
 		}
 		k, _ := flow.ConstInt(ret.Results[0])
-		e := vbitEdge(ret)
+		e := c.vbitEdge(ret)
 		if (k == 12 && e != "V") || (k == 8 && e == "V") || (k != 8 && k != 12) {
 			good = false
 		}
